@@ -771,8 +771,8 @@ class C17(SeqProp):
             print("[%s] ERROR: the harness does not build against the repository's working tree" % pid)
             write_evidence(pid, tier, seed, dict(obligations=proof["obligations"], discharged=0, checker_cmd="make Props/%s.vo" % pid,
                                                  trusted_base=TRUSTED, evaluations=0, distinct_nontrivial=0, rule=self.rule, samples=[],
-                                                 explanation="harness build failed"), self.assumptions, time.time() - t0, 0)
-            return 2
+                                                 explanation="harness build failed"), self.assumptions, time.time() - t0, 1)
+            return harness_broken(pid, tier, seed, (out_d if not ok_d else out_r))
         spec_vo = os.path.exists(os.path.join(COQ, "Spec", "SpecC17.vo")) and os.path.exists(os.path.join(COQ, "Model", "PanicSites.vo"))
         r = random.Random(seed)
         # 3. scenarios
